@@ -23,6 +23,11 @@ CHECKS = {
         "design_ref": "DESIGN.md §5.3",
         "note": "Trusted: the event log of vsim/child.py (io.open/os.open/os.mkdir/... seams) and the small header recogniser in vsim/oracles/c10.py (validated on the repo's corpus packages). Clause 2 is output-only: it relates each file's own header to its path, no model of the expected layout is built.",
     },
+    "C13": {
+        "text": "Scoped claim (order/attachment clause only). Layer C: after one real get_api with a recording proxy around the docstring parser, the real queries (real mypy nodes) are replayed as seeded histories - random, A-B-A, documented->undocumented, homonymous short names, immediate repeats, locally shuffled and reversed walker order - on fresh parser instances; every answer, and every answer the real pipeline itself got, must equal the answer of a brand-new parser instance asked only that query (reference model of the one-entry cache). Layer E: generated docstrings carry a unique token per element/parameter/result/example/attribute; after a real run every token occurrence in the stubs must sit in the documentation comment of its own element. The style-equivalence clause and 'line for line' for arbitrary texts are input-only and are not decided.",
+        "design_ref": "DESIGN.md §5.4",
+        "note": "Trusted: the recording proxy and loader memo of vsim/child_doc.py (the griffe tree is shared between reference instances, the parser's own cache is always cold), the comment/declaration recogniser of vsim/oracles/c13.py. Queries whose cold reference raises are excluded.",
+    },
     "C16": {
         "text": "Seeded histories on state that survives between operations. (a) After one real get_api the child drives 8-13 seeded operations (full generations with either naming flag, single-module renderings, module sequences in permuted order, writes, JSON dumps) against ONE live API model; after every operation api.to_dict() must equal its initial value, every generation must equal the reference generation from a pristine copy, every module text must be independent of what was rendered before, and members inlined from one private base into several public classes must be rendered identically. (b) Histories RUN;RUN, RUN(injected I/O error);RUN and RUN(process death at a stratified mutation event);RUN over one output directory: the final tree must equal, path for path and byte for byte, the tree of a single clean run. Exploration evidence, not proof.",
         "design_ref": "DESIGN.md §5.5",
